@@ -59,8 +59,8 @@ class Sphere(ShapedComponent):
         )
 
     def getBoundingCircleOuterDiameter(self, Tc=None, cold=False):
-        """Abstract bounding circle method that should be overwritten by each shape subclass."""
-        return self.getDimension("od")
+        """Outer diameter of the sphere at the temperature (or cold state) asked for."""
+        return self.getDimension("od", Tc, cold)
 
     def getComponentArea(self, cold=False, Tc=None):
         """Compute an average area over the height."""
